@@ -274,6 +274,77 @@ def child(arg):
                                "constants": len(exported.constants)})
     cnt.update({"monitor:" + k: v for k, v in o.COUNTERS.items()})
 
+  elif kind == "aliasmods":
+    # stub texts / programs over local stub modules imported under aliases, forward-referenced
+    # union aliases, unions whose members become equal once resolved (vf/gen/c12_stubtext.py)
+    import shutil
+    from vf import pt
+    from vf.gen import c12_stubtext as st
+    from pytype import load_pytd
+    from pytype.pytd import serialize_ast
+    o.install_monitor()
+    moddir = os.path.join(scratch, f"c12-mods-{os.getpid()}")
+    shutil.rmtree(moddir, ignore_errors=True)
+    os.makedirs(moddir)
+    try:
+      st.write_modules(moddir)
+      for i in range(arg["texts"]):
+        seed = f"{arg['seed']}-t{i}"
+        rng = random.Random(seed)
+        modname = rng.choice(["mod", "mod", "pkg2.sub", "pkg2.__init__"])
+        text = st.generate_stub_text(rng)
+        opts = pt.options(module_name=modname, pythonpath=moddir)
+        loader = load_pytd.create_loader(opts)
+        try:
+          ast = serialize_ast.SourceToExportableAst(modname, text, loader)
+        except Exception as e:  # pylint: disable=broad-except
+          cnt["stubtext_not_loadable_not_judged"] += 1
+          cnt["stubtext_not_loadable:" + type(e).__name__] += 1
+          continue
+        vs = _judge(o, ast, out, cnt, kinds_seen, "stubtext/exported",
+                    src_path=rng.choice([None, "mod.pyi"]), metadata=rng.choice([None, ["k"]]))
+        for w in vs:
+          w.update({"seed": seed, "stub_text": text, "module_name": modname})
+          out["violations"].append(w)
+        # the same text the way the loader ingests a dependency: load_file + resolve
+        try:
+          path = os.path.join(moddir, f"hand{i}.pyi")
+          with open(path, "w") as f:
+            f.write(text)
+          loader2 = load_pytd.create_loader(pt.options(module_name="user", pythonpath=moddir))
+          loaded = loader2.load_file(f"hand{i}", path)
+        except Exception as e:  # pylint: disable=broad-except
+          cnt["stubtext_load_file_failed_not_judged"] += 1
+          cnt["stubtext_load_file_failed:" + type(e).__name__] += 1
+        else:
+          vs = _judge(o, loaded, out, cnt, kinds_seen, "stubtext/loaded", src_path=path)
+          for w in vs:
+            w.update({"seed": seed, "stub_text": text, "module_name": f"hand{i}"})
+            out["violations"].append(w)
+        if i == 0:
+          out["samples"].append({"source": "stubtext", "seed": seed, "text": text[:700]})
+      for i in range(arg["programs"]):
+        seed = f"{arg['seed']}-p{i}"
+        rng = random.Random(seed)
+        src = st.generate_program(rng)
+        modname = rng.choice(["mod", "pkg2.__init__"])
+        opts = pt.options(module_name=modname, pythonpath=moddir)
+        loader = load_pytd.create_loader(opts)
+        try:
+          res = pt.analyze(src, loader=loader, opts=opts)
+          exported = serialize_ast.PrepareForExport(modname, res.ast, loader)
+        except Exception as e:  # pylint: disable=broad-except
+          cnt["alias_program_not_judged"] += 1
+          cnt["alias_program_not_judged:" + type(e).__name__] += 1
+          continue
+        vs = _judge(o, exported, out, cnt, kinds_seen, "aliasprogram/exported")
+        for w in vs:
+          w.update({"seed": seed, "program": src, "module_name": modname, "needs_modules": True})
+          out["violations"].append(w)
+      cnt.update({"monitor:" + k: v for k, v in o.COUNTERS.items()})
+    finally:
+      shutil.rmtree(moddir, ignore_errors=True)
+
   elif kind == "units":
     from vf import pt
     from vf.gen import stubs
@@ -347,9 +418,11 @@ def _tasks(tier, seed):
   rng = random.Random(f"{PID}-{seed}-{tier}")
   if tier == "quick":
     n_prog, per, n_unit, units_per, n_eq, pools = 10, 10, 8, 30, 2, 2
+    n_alias, alias_texts, alias_progs = 4, 30, 4
     pyvers = [(3, 12), (3, 10)]
   else:
     n_prog, per, n_unit, units_per, n_eq, pools = 40, 30, 32, 150, 8, 6
+    n_alias, alias_texts, alias_progs = 16, 150, 20
     pyvers = [(3, 12), (3, 11), (3, 10), (3, 9), (3, 8)]
   tasks = []
   for pv in pyvers:
@@ -363,6 +436,10 @@ def _tasks(tier, seed):
   for b in range(n_unit):
     tasks.append({"fn": "vf.checks.c12:child", "id": f"unit{b}", "timeout": 2400, "hashseed": str(b % 2),
                   "arg": {"kind": "units", "seed": f"{PID}-{seed}-{tier}-u{b}", "count": units_per}})
+  for b in range(n_alias):
+    tasks.append({"fn": "vf.checks.c12:child", "id": f"alias{b}", "timeout": 2400, "hashseed": str(b % 2),
+                  "arg": {"kind": "aliasmods", "seed": f"{PID}-{seed}-{tier}-a{b}", "texts": alias_texts,
+                          "programs": alias_progs}})
   for b in range(n_eq):
     tasks.append({"fn": "vf.checks.c12:child", "id": f"eq{b}", "timeout": 2400, "hashseed": str(b % 2),
                   "arg": {"kind": "eqhash", "seed": f"{PID}-{seed}-{tier}-e{b}", "pools": pools,
@@ -403,6 +480,12 @@ def run(tier, seed) -> int:
     ck.inconclusive("no emitted AST was judged")
   if not any(k.startswith("judged:unit") for k in c):
     ck.inconclusive("no generated unit was judged")
+  if not any(k.startswith("judged:stubtext") for k in c):
+    ck.inconclusive("no hand-written-style stub text was judged")
+  if c.get("late_types_behind_alias", 0) == 0:
+    ck.inconclusive("no LateType behind a module alias was serialised")
+  if c.get("raw_sorted_collections_judged", 0) == 0:
+    ck.inconclusive("the raw canonical-order walk never judged a collection")
   if c.get("monitor:evaluations", 0) == 0:
     ck.inconclusive("the pickle_utils.Serialize monitor never ran")
   return ck.finish()
@@ -432,6 +515,34 @@ def replay(rec) -> int:
     u = (unit if v == "raw" else stubs.resolve_unit(unit, loader) if v == "resolved" else
          serialize_ast.PrepareForExport(name, unit, loader))
     vs = o.check_ast(u)
+  elif w.get("stub_text") or w.get("needs_modules"):
+    import shutil
+    from vf import pt
+    from vf.gen import c12_stubtext as st
+    from pytype import load_pytd
+    from pytype.pytd import serialize_ast
+    moddir = os.path.join(boot.BUILD, "scratch", f"c12-mods-replay-{os.getpid()}")
+    os.makedirs(moddir, exist_ok=True)
+    try:
+      st.write_modules(moddir)
+      name = w.get("module_name", "mod")
+      if src == "stubtext/loaded":
+        path = os.path.join(moddir, name + ".pyi")
+        with open(path, "w") as f:
+          f.write(w["stub_text"])
+        ld = load_pytd.create_loader(pt.options(module_name="user", pythonpath=moddir))
+        u = ld.load_file(name, path)
+      else:
+        opts = pt.options(module_name=name, pythonpath=moddir)
+        ld = load_pytd.create_loader(opts)
+        if w.get("stub_text"):
+          u = serialize_ast.SourceToExportableAst(name, w["stub_text"], ld)
+        else:
+          res = pt.analyze(w["program"], loader=ld, opts=opts)
+          u = serialize_ast.PrepareForExport(name, res.ast, ld)
+      vs = o.check_ast(u)
+    finally:
+      shutil.rmtree(moddir, ignore_errors=True)
   elif w.get("program"):
     from vf import pt
     from pytype import load_pytd
